@@ -1,6 +1,6 @@
 (* Props/C07.v — encodings are self-delimiting: decode consumes exactly what encode produced. *)
 From Coq Require Import NArith ZArith List.
-From Desert Require Import Outcome IO Types Codec CodecB CodecWf TruncProofs CodecRt2 PropLemmas.
+From Desert Require Import Outcome IO Types Codec CodecB CodecWf TruncProofs CodecRt2 PropLemmas Inject.
 From Desert Require Import History RecordRt RecordChunkedSpec EvolutionSpec C07Lemmas.
 Import ListNotations.
 Open Scope N_scope.
@@ -11,6 +11,13 @@ Theorem C07_suffix : forall f E t v st b st' s k,
   enc f E t v st = Ok (b, st') ->
   dec a_ops f E t (mkA (b ++ s) k st) = Ok (normv f E t v, mkA s k st').
 Proof. exact roundtrip. Qed.
+
+(* the code is prefix-free: no encoding of a type is a strict prefix of another encoding of that type *)
+Theorem C07_prefix_free : forall f E t v v' st b r st1 st2,
+  wf_env E = true -> wf_env_rt E = true -> wf_ty E t = true ->
+  wf_val f E t v = true -> wf_val f E t v' = true ->
+  enc f E t v st = Ok (b, st1) -> enc f E t v' st = Ok (b ++ r, st2) -> r = [].
+Proof. exact enc_prefix_free. Qed.
 
 (* values written one after another are read back one after another *)
 Theorem C07_sequence : forall f E t1 t2 v1 v2 st b1 st1 b2 st2 s k,
@@ -57,6 +64,7 @@ Theorem C07_cross_version :
         dec_record a_ops decf (decl_at H kr) (mkA (b ++ s) k st) = Ok (VNode 0 vs, mkA s k st'').
 Proof. exact c07_cross_version. Qed.
 
+Print Assumptions C07_prefix_free.
 Print Assumptions C07_suffix.
 Print Assumptions C07_cross_version.
 Print Assumptions C07_sequence.
